@@ -158,10 +158,27 @@ func c20Run(t *testing.T, in c20Input) (obs map[string]interface{}, extra map[st
 func genC20Case(r *Rng) c20Input {
 	var ops []c20Op
 	add := func(k string, a, b, c int) { ops = append(ops, c20Op{K: k, A: a, B: b, C: c}) }
+	// many-to-one relations: wherever a VALUE is chosen (feeder, admin, deployer, withdrawer, sudo contract,
+	// mint target, storage word, rate) a per-case "hub" is picked half of the time, so that several keys of a
+	// collection share one value (several validators -> one feeder, several denoms -> one admin, …)
+	hub := r.Intn(5)
+	usr := func() int {
+		if r.Chance(1, 2) {
+			return hub
+		}
+		return r.Intn(5)
+	}
+	hubWord := r.Intn(5)
+	wordv := func() int {
+		if r.Chance(1, 2) {
+			return hubWord
+		}
+		return r.Intn(5)
+	}
 	single := func() {
 		switch r.Pick(3, 2, 2, 2, 2, 2, 2, 2, 2, 2, 2, 2, 2, 2, 2, 2, 2, 3) {
 		case 0:
-			add("sstore", r.Intn(4), r.Intn(4), r.Intn(4))
+			add("sstore", r.Intn(4), r.Intn(4), wordv())
 		case 1:
 			add("destroy", r.Intn(4), 0, 0)
 		case 2:
@@ -169,11 +186,11 @@ func genC20Case(r *Rng) c20Input {
 		case 3:
 			add("tf_admin", r.Intn(5), r.Intn(5), 1)
 		case 4:
-			add("tf_mint", r.Intn(5), r.Intn(1000), r.Intn(5))
+			add("tf_mint", r.Intn(5), r.Intn(1000), usr())
 		case 5:
 			add("sudo_rm", r.Intn(5), r.Intn(3), 0)
 		case 6:
-			add("sudo_root", r.Intn(5), 0, 0)
+			add("sudo_root", usr(), 0, 0)
 		case 7:
 			add("infl_toggle", r.Intn(2), 0, 0)
 		case 8:
@@ -187,7 +204,7 @@ func genC20Case(r *Rng) c20Input {
 		case 12:
 			add("or_tally", 0, 0, 0)
 		case 13:
-			add("or_delegate", r.Intn(3), r.Intn(5), 0)
+			add("or_delegate", r.Intn(3), usr(), 0)
 		case 14:
 			add("tf_md", r.Intn(5), r.Intn(5), 0)
 		case 15:
@@ -204,15 +221,15 @@ func genC20Case(r *Rng) c20Input {
 			single()
 			continue
 		}
-		switch r.Pick(5, 3, 4, 3, 3, 3, 4, 3, 2, 2) {
+		switch r.Pick(5, 3, 4, 3, 3, 3, 4, 3, 2, 4) {
 		case 0: // contracts: constructor storage, later writes / clears, maybe a self-destruct, maybe empty code
 			var slots [][2]int
 			for j := r.Intn(4); j > 0; j-- {
-				slots = append(slots, [2]int{r.Intn(4), r.Intn(5)})
+				slots = append(slots, [2]int{r.Intn(4), wordv()})
 			}
 			ops = append(ops, c20Op{K: "deploy", A: r.Intn(3), B: r.Intn(3), C: boolInt(r.Chance(1, 7)), Slots: slots})
 			for j := r.Intn(3); j > 0; j-- {
-				add("sstore", r.Intn(4), r.Intn(4), r.Intn(4))
+				add("sstore", r.Intn(4), r.Intn(4), wordv())
 			}
 			if r.Chance(1, 4) {
 				add("destroy", r.Intn(4), 0, 0)
@@ -226,14 +243,20 @@ func genC20Case(r *Rng) c20Input {
 			}
 		case 3: // token factory: create, hand over, custom metadata, mint
 			add("tf_create", r.Intn(5), r.Intn(4), 0)
+			if r.Chance(1, 2) {
+				add("tf_create", usr(), r.Intn(4), 0) // a second denom, often of the hub creator
+			}
 			if r.Chance(2, 3) {
-				add("tf_admin", r.Intn(5), r.Intn(5), 0)
+				add("tf_admin", r.Intn(5), usr(), 0)
+				if r.Chance(1, 2) {
+					add("tf_admin", r.Intn(5), usr(), 0)
+				}
 			}
 			if r.Chance(1, 2) {
 				add("tf_md", r.Intn(5), r.Intn(5), 0)
 			}
 			if r.Chance(1, 2) {
-				add("tf_mint", r.Intn(5), r.Intn(1000), r.Intn(5))
+				add("tf_mint", r.Intn(5), r.Intn(1000), usr())
 			}
 		case 4: // sudoers
 			add("sudo_add", r.Intn(5), r.Intn(3), 0)
@@ -241,7 +264,7 @@ func genC20Case(r *Rng) c20Input {
 				add("sudo_rm", r.Intn(5), r.Intn(3), 0)
 			}
 			if r.Chance(1, 4) {
-				add("sudo_root", r.Intn(5), 0, 0)
+				add("sudo_root", usr(), 0, 0)
 			}
 		case 5: // inflation: params, on, a few epochs, maybe off and more epochs (skipped epochs)
 			if r.Chance(1, 2) {
@@ -276,12 +299,15 @@ func genC20Case(r *Rng) c20Input {
 				add("or_alloc", r.Intn(50), r.Intn(4), 0)
 			}
 		case 9: // fee shares and feeder delegations
-			add("fs_set", r.Intn(5), r.Intn(5), r.Intn(5))
+			add("fs_set", r.Intn(5), usr(), usr())
 			if r.Chance(1, 2) {
-				add("fs_set", r.Intn(5), r.Intn(5), r.Intn(5))
+				add("fs_set", r.Intn(5), usr(), usr())
 			}
-			if r.Chance(1, 2) {
-				add("or_delegate", r.Intn(3), r.Intn(5), 0)
+			first := r.Intn(3)
+			for v := 0; v < 3; v++ {
+				if v == first || r.Chance(2, 3) {
+					add("or_delegate", v, usr(), 0)
+				}
 			}
 		}
 	}
@@ -330,8 +356,22 @@ func c20Openers() []c20Input {
 		{K: "or_vote", A: 5},
 		{K: "or_prevote", A: 1, B: 4},
 	}
+	shared := []c20Op{
+		{K: "or_delegate", A: 0, B: 2}, {K: "or_delegate", A: 1, B: 2}, {K: "or_delegate", A: 2, B: 2}, // three validators, one feeder
+		{K: "tf_create", A: 0, B: 0}, {K: "tf_create", A: 1, B: 0}, {K: "tf_create", A: 1, B: 1},
+		{K: "tf_admin", A: 0, B: 3}, {K: "tf_admin", A: 1, B: 3}, {K: "tf_admin", A: 2, B: 3}, // three denoms, one admin
+		{K: "tf_md", A: 0, B: 1}, {K: "tf_md", A: 1, B: 1},
+		{K: "fs_set", A: 0, B: 4, C: 4}, {K: "fs_set", A: 1, B: 4, C: 4}, {K: "fs_set", A: 2, B: 4, C: 4}, // one deployer = withdrawer
+		{K: "sudo_add", A: 2, B: 2},
+		{K: "deploy", A: 0, B: 1, Slots: [][2]int{{0, 7}, {1, 7}, {2, 7}}}, {K: "deploy", A: 1, B: 1, Slots: [][2]int{{0, 7}, {1, 7}}}, // same code, same words
+		{K: "ftcoin", A: 0}, {K: "ftcoin", A: 0}, {K: "ftcoin", A: 1, B: 0}, {K: "erc20", A: 0, B: 3}, {K: "erc20", A: 1, B: 3}, // same name/decimals
+		{K: "or_alloc", A: 4, B: 2}, {K: "or_alloc", A: 4, B: 2}, // two rewards with the same coins and periods
+		{K: "or_prevote", A: 7, B: 1}, {K: "or_vote", A: 7}, {K: "or_tally"}, // all vote the same (equal) rates through the one feeder
+		{K: "or_prevote", A: 7, B: 3}, {K: "or_vote", A: 6}, // two votes and one prevote pending, same feeder
+	}
 	return []c20Input{
 		{Ops: full, Dt: 3600},
+		{Ops: shared, Dt: 777},
 		{Ops: []c20Op{{K: "or_alloc", A: 3, B: 2}, {K: "or_alloc", A: 5, B: 3}}, Dt: 10},
 		{Ops: []c20Op{{K: "tf_create", A: 0, B: 0}, {K: "tf_md", A: 0, B: 2}}, Dt: 10},
 		{Ops: []c20Op{{K: "deploy", A: 0, B: 0, C: 1, Slots: [][2]int{{1, 5}}}, {K: "deploy", A: 0, B: 2, Slots: [][2]int{{1, 6}}}, {K: "destroy", A: 1}}, Dt: 10},
